@@ -57,6 +57,18 @@ def aimed():
                 "doc": {"content": "(A | B)+"}, "A": {"content": "(text|image) (text|image) (text image)?"},
                 "B": {"content": "(text|image) image"},
                 "image": {"inline": True}, "text": {"inline": True}}, "marks": {"em": {}}}), "join-unstable"),
+            # `lift_target` asks whether the target accepts the content *instead of* the range's ancestor; when the lift splits,
+            # the copies left behind stay: doc(blockquote(p, p)) lifting one paragraph is approved and would give doc(blockquote(p), p)
+            schemas.SchemaInfo(Schema({"nodes": {
+                "doc": {"content": "blockquote | paragraph+"}, "blockquote": {"content": "paragraph+"},
+                "paragraph": {"content": "text*"}, "text": {}}, "marks": {"em": {}}}), "lift-copy"),
+            # not TextStable, nested inline nodes: lifting `span2("b"), "c"` out of p("x", span1(span2("b"), "c"), "y") splits nothing,
+            # `can_replace` accepts `text span2 text text`, the replace merges "c" and "y"
+            schemas.SchemaInfo(Schema({"nodes": {
+                "doc": {"content": "p+"},
+                "p": {"content": "(text|image) span1 (text|image) | (text|image) span2 (text|image) (text|image)"},
+                "span1": {"inline": True, "content": "(span2|image) text*"}, "span2": {"inline": True, "content": "text*"},
+                "image": {"inline": True}, "text": {"inline": True}}}), "lift-unstable"),
         ]
     return _AIMED
 
@@ -236,8 +248,11 @@ def run(ctx):
                         if not (0 <= tgt < br.depth):
                             ctx.violation("lift_target-range", "lift_target returned a depth outside [0, range depth)", dict(replay, target=tgt))
                         else:
-                            perform(ctx, info, d, "lift", lambda tr: tr.lift(br, tgt), dict(replay, target=tgt), reqs, metas, bundled,
-                                    build={"k": "lift", "from": br.from_.pos, "to": br.to.pos, "depth": br.depth, "target": tgt})
+                            done = perform(ctx, info, d, "lift", lambda tr: tr.lift(br, tgt), dict(replay, target=tgt), reqs, metas, bundled,
+                                           build={"k": "lift", "from": br.from_.pos, "to": br.to.pos, "depth": br.depth, "target": tgt})
+                            # `liftTarget_lift_applies_flat`: approved ∧ nothing is split ∧ TextStable ⇒ the lift succeeded
+                            guard(info, d, "lift", {"from": br.from_.pos, "to": br.to.pos, "depth": br.depth, "target": tgt},
+                                  dict(replay, target=tgt), done is not None)
                     if block_types:
                         wt = rng.choice(block_types)
                         attrs = gen.gen_attrs(rng, wt)
